@@ -3,6 +3,32 @@ From Coq Require Import String Ascii List Bool Lia.
 From Bkl Require Import Model.Value Model.Str.
 Import ListNotations.
 
+Lemma sapp_assoc (a b c : string) : ((a ++ b) ++ c = a ++ (b ++ c))%string.
+Proof. induction a as [|x r IH]; cbn; [reflexivity|]. now rewrite IH. Qed.
+
+Lemma sapp_nil_r (a : string) : (a ++ "" = a)%string.
+Proof. induction a as [|x r IH]; cbn; [reflexivity|]. now rewrite IH. Qed.
+
+Lemma rev_string_acc_app s acc : rev_string_acc s acc = (rev_string_acc s EmptyString ++ acc)%string.
+Proof.
+  revert acc. induction s as [|c r IH]; intro acc; cbn; [reflexivity|].
+  rewrite IH, (IH (String c EmptyString)). rewrite sapp_assoc. reflexivity.
+Qed.
+
+Lemma rev_string_app a b : rev_string (a ++ b)%string = (rev_string b ++ rev_string a)%string.
+Proof.
+  unfold rev_string. induction a as [|c r IH]; cbn.
+  - now rewrite sapp_nil_r.
+  - rewrite rev_string_acc_app, IH, (rev_string_acc_app r (String c EmptyString)). now rewrite sapp_assoc.
+Qed.
+
+Lemma rev_string_involutive s : rev_string (rev_string s) = s.
+Proof.
+  induction s as [|c r IH]; [reflexivity|].
+  change (String c r) with (String c EmptyString ++ r)%string at 1.
+  rewrite rev_string_app, rev_string_app, IH. reflexivity.
+Qed.
+
 Lemma unescape_cons_other a s : Ascii.eqb a "$"%char = false -> unescape (String a s) = String a (unescape s).
 Proof. intro E. destruct s as [|b r]; cbn [unescape]; [reflexivity|]. rewrite E. reflexivity. Qed.
 
